@@ -209,6 +209,18 @@ func (corSelf *CorDef[T]) close() {
 		close(corSelf.opCh)
 	}
 	corSelf.closedM.Unlock()
+
+	// Answer the requests nobody will serve any more, or their callers wait forever
+	if corSelf.opCh != nil {
+		for op := range corSelf.opCh {
+			if op != nil && op.cor != nil {
+				cor := op.cor
+				cor.doCloseSafe(func() {
+					cor.resultCh <- *new(T)
+				})
+			}
+		}
+	}
 }
 
 func (corSelf *CorDef[T]) doCloseSafe(fn func()) {
